@@ -72,8 +72,8 @@ def run(eng: Engine, ck: Check):
     aug = [n for n in walk_local(cb.node) if isinstance(n, ast.AugAssign) and isinstance(n.target, ast.Attribute)
            and n.target.attr == 'bytes_transfered']
     data_param = [p for p in cb.params if p != 'self']
-    ok = len(aug) == 1 and isinstance(aug[0].op, ast.Add) and isinstance(aug[0].value, ast.Call) and \
-        call_name(aug[0].value) == 'len' and unparse(aug[0].value.args[0]) == data_param[0] and not eng.guards_at(cb, aug[0])
+    ok = len(aug) == 1 and isinstance(aug[0].op, ast.Add) and \
+        pat.match(expand_aliases(cb, aug[0].value), pat.compile_pattern(f'len({data_param[0]})')[0]) is not None and not eng.guards_at(cb, aug[0])
     ck.ob('R-C04-COUNT', cb, cb.node, 'progress callback adds exactly len(chunk), unconditionally', ok,
           f'{[unparse(a) for a in aug]}', construct='callback += len(data)')
     for q, io_call, desc in (('PeerConnection.receive_file', 'write', 'written to the file'),
@@ -96,7 +96,8 @@ def run(eng: Engine, ck: Check):
                                        edge_ok=lambda a, b, lab: lab == 'next')
             gs = [(e, pol) for e, pol, _ in eng.guards_at(f, x) if not (mentions_name(e, 'callback'))]
             loop_guards = [g for g in gs if not (isinstance(g[0], ast.Constant))]
-            data_guard_ok = all(mentions_name(e, 'data') for e, pol in loop_guards)
+            chunk = unparse(x.args[0]) if x.args else 'data'
+            data_guard_ok = all(mentions_name(e, chunk) for e, pol in loop_guards)
             # p2 is allowed only through the `callback is None` branch: recheck ignoring that branch
             ck.ob('R-C04-COUNT', f, x, f'{q}: the progress callback gets the same chunk object that was {desc}, after the I/O',
                   same and p is None and data_guard_ok, f'same object: {same}; callback reachable before the I/O: {p is not None}; '
@@ -194,7 +195,7 @@ def run(eng: Engine, ck: Check):
     apps = [a for a in calls_in(gq.node) if call_name(a) == 'append' and 'download' in unparse(a.func.value)]
     sel = set()
     for a in apps:
-        for e, pol, _ in eng.guards_at(gq, a):
+        for e, pol, _ in expanded_guards(eng, gq, a):
             if pol:
                 sel |= enum_members_in(e) & {'QUEUED', 'INCOMPLETE', 'FAILED'}
     ck.ob('R-C04-RETRY', gq, gq.node, 'INCOMPLETE downloads are selected for another attempt', 'INCOMPLETE' in sel,
